@@ -1,3 +1,319 @@
 // Kani harnesses (child module of crates/axmos-db/src/storage/page.rs).  See /verif/HARNESS_GUIDE.md
+// C09 (close/reopen): aborted-transaction bitmap laws, header <-> bytes round trips, config -> header persistence
+// (shared with C12); C13: bitmap clearing never goes above the horizon.
 #![allow(unused_imports, dead_code, clippy::all)]
 use super::*;
+
+/// arbitrary page-zero header: every field symbolic, 1024 symbolic bitmap bytes
+fn any_pzh() -> PageZeroHeader {
+    PageZeroHeader {
+        magic: kani::any(),
+        page_number: kani::any(),
+        first_free_page: kani::any(),
+        last_free_page: kani::any(),
+        total_pages: kani::any(),
+        last_created_transaction: kani::any(),
+        last_committed_transaction: kani::any(),
+        last_stored_object: kani::any(),
+        page_size: kani::any(),
+        free_pages: kani::any(),
+        padding: kani::any(),
+        cache_size: kani::any(),
+        min_keys: kani::any(),
+        num_siblings_per_side: kani::any(),
+        aborted_txs_bitmap: kani::any(),
+    }
+}
+const CAP: u64 = (ABORTED_BITMAP_SIZE * 8) as u64;
+/// reference model of the persisted set: id t is a member iff bit t%8 of byte t/8 is set (ids >= CAP have no bit)
+fn model_bit(bm: &[u8; ABORTED_BITMAP_SIZE], t: u64) -> bool {
+    t < CAP && (bm[(t / 8) as usize] >> (t % 8)) & 1 == 1
+}
+fn scalars_eq(a: &PageZeroHeader, b: &PageZeroHeader) -> bool {
+    a.magic == b.magic
+        && a.page_number == b.page_number
+        && a.first_free_page == b.first_free_page
+        && a.last_free_page == b.last_free_page
+        && a.total_pages == b.total_pages
+        && a.last_created_transaction == b.last_created_transaction
+        && a.last_committed_transaction == b.last_committed_transaction
+        && a.last_stored_object == b.last_stored_object
+        && a.page_size == b.page_size
+        && a.free_pages == b.free_pages
+        && a.padding == b.padding
+        && a.cache_size == b.cache_size
+        && a.min_keys == b.min_keys
+        && a.num_siblings_per_side == b.num_siblings_per_side
+}
+
+// ---- C09.aborted_bitmap: mark ---------------------------------------------------------------------------------
+fn mark_laws(t: u64, exact: bool) {
+    let mut h = any_pzh();
+    let old = h;
+    let u: u64 = kani::any(); // probe id
+    let j: usize = kani::any(); // probe byte
+    kani::assume(j < ABORTED_BITMAP_SIZE);
+    kani::cover!(true, "reach");
+    assert!(old.is_transaction_aborted(u) == model_bit(&old.aborted_txs_bitmap, u), "is_aborted_reads_bit");
+    h.mark_transaction_aborted(t);
+    assert!(h.is_transaction_aborted(t), "marked_is_aborted");
+    if u != t {
+        assert!(h.is_transaction_aborted(u) == old.is_transaction_aborted(u), "mark_other_unchanged");
+    }
+    if exact {
+        let expect = if j as u64 == t / 8 { old.aborted_txs_bitmap[j] | (1u8 << (t % 8)) } else { old.aborted_txs_bitmap[j] };
+        assert!(h.aborted_txs_bitmap[j] == expect, "mark_bitmap_exact");
+    }
+    assert!(scalars_eq(&h, &old), "mark_header_fields_unchanged");
+}
+// @obl harness=c09_bitmap_mark_tracked id=C09.aborted_bitmap[mark/tracked] tier=quick funcs="PageZeroHeader::mark_transaction_aborted,PageZeroHeader::is_transaction_aborted" bounds="arbitrary header (1024 symbolic bitmap bytes), all t < 8192, all probe ids u: u64, all probe bytes" assume="t < MAX_TRACKED_ABORTED_TXS" solver=z3
+#[kani::proof]
+#[kani::unwind(2)]
+#[kani::solver(z3)]
+fn c09_bitmap_mark_tracked() {
+    let t: u64 = kani::any();
+    kani::assume(t < CAP);
+    mark_laws(t, true);
+}
+// @obl harness=c09_bitmap_mark_untracked id=C09.aborted_bitmap[mark/untracked] tier=quick funcs="PageZeroHeader::mark_transaction_aborted,PageZeroHeader::is_transaction_aborted" bounds="arbitrary header, all t >= 8192, all probe ids" assume="t >= MAX_TRACKED_ABORTED_TXS (region where the pinned tree drops the id)" solver=z3
+#[kani::proof]
+#[kani::unwind(2)]
+#[kani::solver(z3)]
+fn c09_bitmap_mark_untracked() {
+    let t: u64 = kani::any();
+    kani::assume(t >= CAP);
+    mark_laws(t, false);
+}
+
+// ---- C09.aborted_bitmap / C13.bitmap_clear: clear_aborted_up_to ------------------------------------------------
+/// expected byte j after clearing every id <= m
+fn cleared_byte(old: u8, j: usize, m: u64) -> u8 {
+    let lo = (j as u64) * 8;
+    if m >= lo + 7 {
+        0
+    } else if m < lo {
+        old
+    } else {
+        // ids lo..=m cleared: low (m-lo+1) bits, 1..=7 of them
+        old & !(((1u16 << (m - lo + 1)) - 1) as u8)
+    }
+}
+fn clear_laws(m: u64) {
+    let mut h = any_pzh();
+    let old = h;
+    let u: u64 = kani::any();
+    let j: usize = kani::any();
+    kani::assume(j < ABORTED_BITMAP_SIZE);
+    kani::cover!(true, "reach");
+    h.clear_aborted_up_to(m);
+    if u <= m {
+        assert!(!h.is_transaction_aborted(u), "clear_removes_ids_le_max");
+    } else {
+        assert!(h.is_transaction_aborted(u) == old.is_transaction_aborted(u), "clear_keeps_ids_gt_max");
+    }
+    assert!(h.aborted_txs_bitmap[j] == cleared_byte(old.aborted_txs_bitmap[j], j, m), "clear_bitmap_exact");
+    assert!(scalars_eq(&h, &old), "clear_header_fields_unchanged");
+}
+fn clear_horizon_law(m: u64) {
+    let mut h = any_pzh();
+    let old = h;
+    let u: u64 = kani::any();
+    kani::assume(u > m);
+    kani::cover!(true, "reach");
+    h.clear_aborted_up_to(m);
+    assert!(h.is_transaction_aborted(u) == old.is_transaction_aborted(u), "clear_never_above_horizon");
+}
+// @obl harness=c09_bitmap_clear_small id=C09.aborted_bitmap[clear/m_lt_16] tier=quick funcs="PageZeroHeader::clear_aborted_up_to,PageZeroHeader::is_transaction_aborted" bounds="arbitrary header, all m < 16 (loop runs m+1 times; two bitmap bytes incl. the byte boundary), all probe ids u: u64, all probe bytes" unwind=18 solver=z3
+#[kani::proof]
+#[kani::unwind(18)]
+#[kani::solver(z3)]
+fn c09_bitmap_clear_small() {
+    let m: u64 = kani::any();
+    kani::assume(m < 16);
+    clear_laws(m);
+}
+// The loop runs min(m, 8191)+1 times and its counter (a RangeInclusive) becomes symbolic after the first merge, so a
+// symbolic m costs one symbolic-index array write per iteration: all m cannot be unwound (m < 64 already takes
+// 15 min).  The capacity boundary is covered with a concrete m instead (8192 iterations, concrete indices).
+// @obl harness=c09_bitmap_clear_max id=C09.aborted_bitmap[clear/max] tier=thorough funcs="PageZeroHeader::clear_aborted_up_to,PageZeroHeader::is_transaction_aborted" bounds="arbitrary header, m = u64::MAX (loop fully unwound: 8192 iterations), all probe ids, all probe bytes" unwind=8195
+#[kani::proof]
+#[kani::unwind(8195)]
+fn c09_bitmap_clear_max() {
+    clear_laws(u64::MAX);
+}
+// @obl harness=c13_bitmap_clear_small id=C13.bitmap_clear[h_lt_64] tier=quick funcs="PageZeroHeader::clear_aborted_up_to" bounds="arbitrary header, all horizons h < 64, all probe ids u > h" unwind=66 solver=z3
+#[kani::proof]
+#[kani::unwind(66)]
+#[kani::solver(z3)]
+fn c13_bitmap_clear_small() {
+    let m: u64 = kani::any();
+    kani::assume(m < 64);
+    clear_horizon_law(m);
+}
+
+// ---- C09.header_roundtrip ---------------------------------------------------------------------------------------
+// @obl harness=c09_rt_page_zero id=C09.header_roundtrip[PageZeroHeader] tier=quick funcs="<PageZeroHeader as AsRef<[u8]>>::as_ref,<PageZeroHeader as From<&[u8]>>::from" bounds="every field symbolic (Option fields: None or Some(any)), 1024 symbolic bitmap bytes compared at a symbolic index"
+#[kani::proof]
+#[kani::unwind(2)]
+fn c09_rt_page_zero() {
+    let h = any_pzh();
+    let mut disk = [0u8; PAGE_ZERO_HEADER_SIZE];
+    disk.copy_from_slice(AsRef::<[u8]>::as_ref(&h));
+    let g = PageZeroHeader::from(&disk[..]);
+    let j: usize = kani::any();
+    kani::assume(j < ABORTED_BITMAP_SIZE);
+    kani::cover!(true, "reach");
+    assert!(AsRef::<[u8]>::as_ref(&h).len() == PAGE_ZERO_HEADER_SIZE, "rt_len");
+    assert!(g.magic == h.magic, "rt_magic");
+    assert!(g.page_number == h.page_number, "rt_page_number");
+    assert!(g.first_free_page == h.first_free_page, "rt_first_free_page");
+    assert!(g.last_free_page == h.last_free_page, "rt_last_free_page");
+    assert!(g.total_pages == h.total_pages, "rt_total_pages");
+    assert!(g.last_created_transaction == h.last_created_transaction, "rt_last_created_transaction");
+    assert!(g.last_committed_transaction == h.last_committed_transaction, "rt_last_committed_transaction");
+    assert!(g.last_stored_object == h.last_stored_object, "rt_last_stored_object");
+    assert!(g.page_size == h.page_size, "rt_page_size");
+    assert!(g.free_pages == h.free_pages, "rt_free_pages");
+    assert!(g.padding == h.padding, "rt_padding");
+    assert!(g.cache_size == h.cache_size, "rt_cache_size");
+    assert!(g.min_keys == h.min_keys, "rt_min_keys");
+    assert!(g.num_siblings_per_side == h.num_siblings_per_side, "rt_num_siblings");
+    assert!(g.aborted_txs_bitmap[j] == h.aborted_txs_bitmap[j], "rt_bitmap");
+}
+// The path the pager really uses (alloc_page_zero / sync_header / load_page_zero): header stored in place at the
+// start of a MemBlock, whole block written as bytes, bytes read into a fresh MemBlock, header copied out.
+// @obl harness=c09_rt_page_zero_block id=C09.header_roundtrip[PageZeroBlock] tier=quick funcs="MemBlock::new,MemBlock::metadata_mut,MemBlock::as_ref,MemBlock::as_mut,MemBlock::metadata" bounds="every header field symbolic; block of header size + 16 data bytes"
+#[kani::proof]
+#[kani::unwind(2)]
+fn c09_rt_page_zero_block() {
+    let h = any_pzh();
+    const SZ: usize = PAGE_ZERO_HEADER_SIZE + 16;
+    let mut a: MemBlock<PageZeroHeader> = MemBlock::new(SZ);
+    *a.metadata_mut() = h;
+    let mut disk = [0u8; SZ];
+    disk.copy_from_slice(AsRef::<[u8]>::as_ref(&a));
+    let mut b: MemBlock<PageZeroHeader> = MemBlock::new(SZ);
+    AsMut::<[u8]>::as_mut(&mut b).copy_from_slice(&disk);
+    let g: PageZeroHeader = *b.metadata();
+    let j: usize = kani::any();
+    kani::assume(j < ABORTED_BITMAP_SIZE);
+    kani::cover!(true, "reach");
+    assert!(scalars_eq(&g, &h), "block_rt_scalar_fields");
+    assert!(g.aborted_txs_bitmap[j] == h.aborted_txs_bitmap[j], "block_rt_bitmap");
+    std::mem::forget(a);
+    std::mem::forget(b);
+}
+// @obl harness=c09_rt_btree_header id=C09.header_roundtrip[BtreePageHeader] tier=quick funcs="<BtreePageHeader as AsRef<[u8]>>::as_ref,<BtreePageHeader as From<&[u8]>>::from" bounds="every field symbolic"
+#[kani::proof]
+#[kani::unwind(2)]
+fn c09_rt_btree_header() {
+    let h = BtreePageHeader {
+        page_number: kani::any(),
+        right_child: kani::any(),
+        next_sibling: kani::any(),
+        previous_sibling: kani::any(),
+        free_space_ptr: kani::any(),
+        page_size: kani::any(),
+        free_space: kani::any(),
+        padding: kani::any(),
+        num_slots: kani::any(),
+    };
+    let mut disk = [0u8; BTREE_PAGE_HEADER_SIZE];
+    disk.copy_from_slice(AsRef::<[u8]>::as_ref(&h));
+    let g = BtreePageHeader::from(&disk[..]);
+    kani::cover!(true, "reach");
+    assert!(g.page_number == h.page_number, "rt_page_number");
+    assert!(g.right_child == h.right_child, "rt_right_child");
+    assert!(g.next_sibling == h.next_sibling, "rt_next_sibling");
+    assert!(g.previous_sibling == h.previous_sibling, "rt_previous_sibling");
+    assert!(g.free_space_ptr == h.free_space_ptr, "rt_free_space_ptr");
+    assert!(g.page_size == h.page_size, "rt_page_size");
+    assert!(g.free_space == h.free_space, "rt_free_space");
+    assert!(g.padding == h.padding, "rt_padding");
+    assert!(g.num_slots == h.num_slots, "rt_num_slots");
+}
+// @obl harness=c09_rt_overflow_header id=C09.header_roundtrip[OverflowPageHeader] tier=quick funcs="<OverflowPageHeader as AsRef<[u8]>>::as_ref,<OverflowPageHeader as From<&[u8]>>::from" bounds="every field symbolic"
+#[kani::proof]
+#[kani::unwind(2)]
+fn c09_rt_overflow_header() {
+    let h = OverflowPageHeader { page_number: kani::any(), next: kani::any(), num_bytes: kani::any(), padding: kani::any() };
+    let mut disk = [0u8; OVERFLOW_HEADER_SIZE];
+    disk.copy_from_slice(AsRef::<[u8]>::as_ref(&h));
+    let g = OverflowPageHeader::from(&disk[..]);
+    kani::cover!(true, "reach");
+    assert!(g.page_number == h.page_number, "rt_page_number");
+    assert!(g.next == h.next, "rt_next");
+    assert!(g.num_bytes == h.num_bytes, "rt_num_bytes");
+    assert!(g.padding == h.padding, "rt_padding");
+}
+
+// ---- C09.config_persist (also C12) ------------------------------------------------------------------------------
+/// documented ranges: page size a power of two in 4..64 KiB, any cache size, min keys >= 3, siblings >= 1
+fn any_documented_config() -> DBConfig {
+    let sh: u32 = kani::any();
+    kani::assume(sh >= 12 && sh <= 16);
+    let c = DBConfig {
+        page_size: 1usize << sh,
+        cache_size: kani::any(),
+        pool_size: kani::any(),
+        num_siblings_per_side: kani::any(),
+        min_keys_per_page: kani::any(),
+    };
+    kani::assume(c.min_keys_per_page >= 3);
+    kani::assume(c.num_siblings_per_side >= 1);
+    c
+}
+fn persist_laws(c: DBConfig, via_from: bool) {
+    let h = if via_from { PageZeroHeader::from(c) } else { PageZeroHeader::from_config(c) };
+    assert!(h.page_size as usize == c.page_size, "persist_page_size");
+    assert!(h.cache_size as usize == c.cache_size, "persist_cache_size");
+    assert!(h.min_keys as usize == c.min_keys_per_page, "persist_min_keys");
+    assert!(h.num_siblings_per_side as usize == c.num_siblings_per_side, "persist_num_siblings");
+    assert!(h.padding == 0 && h.magic == MAGIC && h.page_number == PAGE_ZERO, "persist_fresh_header_shape");
+}
+// @obl harness=c09_config_persist_fits id=C09.config_persist[fits] also=C12 tier=quick funcs="PageZeroHeader::from_config,PageZeroHeader::new,<PageZeroHeader as From<DBConfig>>::from" bounds="page size 2^12..2^16, cache_size <= 65535, 3 <= min_keys <= 255, 1 <= siblings <= 255, any pool size" assume="documented ranges AND values fit the header field widths (complement of the three truncation regions)"
+#[kani::proof]
+#[kani::unwind(2)]
+fn c09_config_persist_fits() {
+    let c = any_documented_config();
+    kani::assume(c.cache_size <= u16::MAX as usize);
+    kani::assume(c.min_keys_per_page <= u8::MAX as usize);
+    kani::assume(c.num_siblings_per_side <= u8::MAX as usize);
+    let via_from: bool = kani::any();
+    kani::cover!(true, "reach");
+    persist_laws(c, via_from);
+}
+// @obl harness=c09_config_persist_big_cache id=C09.config_persist[big_cache] also=C12 tier=quick funcs="PageZeroHeader::from_config,PageZeroHeader::new" bounds="documented ranges, cache_size > 65535, min_keys and siblings <= 255" assume="cache_size > u16::MAX (region where the pinned tree truncates)"
+#[kani::proof]
+#[kani::unwind(2)]
+fn c09_config_persist_big_cache() {
+    let c = any_documented_config();
+    kani::assume(c.cache_size > u16::MAX as usize);
+    kani::assume(c.min_keys_per_page <= u8::MAX as usize);
+    kani::assume(c.num_siblings_per_side <= u8::MAX as usize);
+    kani::cover!(true, "reach");
+    persist_laws(c, false);
+}
+// @obl harness=c09_config_persist_big_min_keys id=C09.config_persist[big_min_keys] also=C12 tier=quick funcs="PageZeroHeader::from_config,PageZeroHeader::new" bounds="documented ranges, min_keys > 255, cache_size <= 65535, siblings <= 255" assume="min_keys_per_page > u8::MAX (region where the pinned tree truncates)"
+#[kani::proof]
+#[kani::unwind(2)]
+fn c09_config_persist_big_min_keys() {
+    let c = any_documented_config();
+    kani::assume(c.cache_size <= u16::MAX as usize);
+    kani::assume(c.min_keys_per_page > u8::MAX as usize);
+    kani::assume(c.num_siblings_per_side <= u8::MAX as usize);
+    kani::cover!(true, "reach");
+    persist_laws(c, false);
+}
+// @obl harness=c09_config_persist_big_siblings id=C09.config_persist[big_siblings] also=C12 tier=quick funcs="PageZeroHeader::from_config,PageZeroHeader::new" bounds="documented ranges, siblings > 255, cache_size <= 65535, min_keys <= 255" assume="num_siblings_per_side > u8::MAX (region where the pinned tree truncates)"
+#[kani::proof]
+#[kani::unwind(2)]
+fn c09_config_persist_big_siblings() {
+    let c = any_documented_config();
+    kani::assume(c.cache_size <= u16::MAX as usize);
+    kani::assume(c.min_keys_per_page <= u8::MAX as usize);
+    kani::assume(c.num_siblings_per_side > u8::MAX as usize);
+    kani::cover!(true, "reach");
+    persist_laws(c, false);
+}
+
